@@ -566,6 +566,9 @@ func (c *leafCtx) stmt8(s ast.Stmt, next func(string) string, ind string) (strin
 		if !ok {
 			return "", false
 		}
+		if r, ok := c.copyTail8(ce, nil, next, ind); ok {
+			return r, true
+		}
 		if f, ok := ce.Fun.(*ast.SelectorExpr); ok { // log.LogAttrs(…) on a logger parameter
 			if id, ok := f.X.(*ast.Ident); ok && c.logVars[id.Name] && strings.HasPrefix(f.Sel.Name, "Log") {
 				return next(ind), true
@@ -613,6 +616,15 @@ func (c *leafCtx) stmt8(s ast.Stmt, next func(string) string, ind string) (strin
 		}
 		return c.takeBinds(ind) + c.actLine("Go.SysAction.spawn "+leanString(c.leanSelf+"_go")+" ["+strings.Join(ids, ", ")+"]") + nl + next(ind), true
 	case *ast.AssignStmt:
+		if len(st.Lhs) == 1 && len(st.Rhs) == 1 && st.Tok == token.DEFINE {
+			if ce, ok := st.Rhs[0].(*ast.CallExpr); ok {
+				if id, ok := st.Lhs[0].(*ast.Ident); ok {
+					if r, ok := c.copyTail8(ce, id, next, ind); ok {
+						return r, true
+					}
+				}
+			}
+		}
 		if len(st.Lhs) == 2 && len(st.Rhs) == 1 && st.Tok == token.DEFINE {
 			ce, ok := st.Rhs[0].(*ast.CallExpr)
 			if ok && isPkgCall(ce, "unix", "ClockAdjtime") && len(ce.Args) == 2 && c.hasThread("w") {
@@ -638,4 +650,43 @@ func (c *leafCtx) stmt8(s ast.Stmt, next func(string) string, ind string) (strin
 		}
 	}
 	return "", false
+}
+
+// copyTail8: `copy(dst, src[off:])` / `n := copy(dst, src[off:])` where dst is a buffer made in this
+// function (whole, from offset 0) and src a byte-slice parameter the function does not write:
+// `Go.copyTail? dst src off` = (new dst, number of bytes copied); none = the slice-bounds panic of
+// `src[off:]` (off < 0 or off > len(src)).
+func (c *leafCtx) copyTail8(ce *ast.CallExpr, nVar *ast.Ident, next func(string) string, ind string) (string, bool) {
+	if ce == nil {
+		return "", false
+	}
+	id, ok := ce.Fun.(*ast.Ident)
+	if !ok || id.Name != "copy" || len(ce.Args) != 2 {
+		return "", false
+	}
+	dst, ok1 := ce.Args[0].(*ast.Ident)
+	se, ok2 := ce.Args[1].(*ast.SliceExpr)
+	if !ok1 || !ok2 || se.High != nil || se.Max != nil || se.Low == nil {
+		return "", false
+	}
+	src, ok3 := se.X.(*ast.Ident)
+	if !ok3 || !c.madeHere[dst.Name] || c.vars[dst.Name] != "L_UInt8" || c.vars[src.Name] != "L_UInt8" || c.madeHere[src.Name] {
+		return "", false
+	}
+	for _, o := range c.outs {
+		if o == src.Name {
+			return "", false
+		}
+	}
+	off, _ := c.expr(se.Low, "Int64")
+	tmp, cnt := c.fresh("_s"), c.fresh("_n")
+	c.binds = append(c.binds, c.bindLine("(Go.copyTail? "+c.lname(dst.Name)+" "+c.lname(src.Name)+" "+off+")", "("+tmp+", "+cnt+")", "opt:slice"))
+	c.needPrelude3 = true
+	pre := c.takeBinds(ind)
+	nl := "\n" + ind
+	out := pre + c.letLine(c.lname(dst.Name), "L_UInt8", tmp) + nl
+	if nVar != nil && nVar.Name != "_" {
+		out += c.letLine(c.declare(nVar.Name, "Int64"), "Int64", cnt) + nl
+	}
+	return out + next(ind), true
 }
